@@ -281,12 +281,18 @@ def run(tier: str, seed: int) -> Result:
         n2i = env.proto_name_to_id()
         pb = env.pb()
         sent_types = 0
-        for noise, debug in ((False, False), (True, False), (False, True), (True, True)):
+        for noise, debug, disc_pending in ((False, False, False), (True, False, False), (False, True, False), (True, True, False),
+                                           (False, False, True), (True, False, True)):
             w = ConnWorld(noise=noise)
             try:
                 w.connect_fully()
                 if debug:
                     w.conn.set_debug(True)
+                if disc_pending:
+                    # a graceful disconnect() has written its request and waits for the answer: the session is still alive and what
+                    # the application (or the keepalive) sends meanwhile is written like anything else
+                    w.spawn("disc", w.conn.disconnect)
+                    w.drain()
                 sock = w.sock
                 assert sock is not None
                 base_writes = len(sock.sent)
@@ -316,7 +322,7 @@ def run(tier: str, seed: int) -> Result:
                                 res.add(f"conn:{'noise' if noise else 'plain'}:bad-batch:wrote", "a refused batch wrote bytes to the transport", {})
                                 base_writes = len(sock.sent)
                         c.evals += 1
-                        key = f"conn:{'noise' if noise else 'plain'}{':debug' if debug else ''}:{klass.__name__}:{variant}"
+                        key = f"conn:{'noise' if noise else 'plain'}{':debug' if debug else ''}{':disconnect-pending' if disc_pending else ''}:{klass.__name__}:{variant}"
                         try:
                             w.conn.send_messages(tuple(batch))
                         except Exception as e:  # noqa: BLE001
